@@ -16,7 +16,7 @@ use vcommon::evidence::{catch, Report, Violation};
 use vuniverse::{u1, u3};
 
 const DOCS_ON: bool = cfg!(feature = "docs");
-static DOCS: [&[&str]; 3] = [&[], &["a"], &["a", ""]];
+static DOCS: [&[&str]; 3] = [&[], &["a"], &[" lead", "", "trail \t", "é\n"]];
 
 // ------------------------------------------------------------------ scripts
 
@@ -58,9 +58,9 @@ pub struct Script {
     pub terminal: Terminal,
 }
 
-const NAMES: [&str; 3] = ["a", "r#b", "c_9"];
-const TNAMES: [&str; 2] = ["TN", "Vec<T>"];
-const VNAMES: [&str; 3] = ["V", "W", "X"];
+const NAMES: [&str; 3] = ["a", "r#b", " c 9 "];
+const TNAMES: [&str; 2] = ["TN", "  Vec < T >  "];
+const VNAMES: [&str; 3] = ["V", " W ", ""];
 
 fn perms<T: Clone>(v: &[T]) -> Vec<Vec<T>> {
     if v.len() <= 1 {
